@@ -297,3 +297,20 @@ impl<V: Copy> AlignedGrid<V> {
         *self.get_ref(x, y)
     }
 }
+
+#[cfg(jxl_oxide_verif)]
+impl<S> AlignedGrid<S> {
+    /// Verification hook: a grid over the given row-major samples with alignment offset 0
+    /// (`with_alloc_tracker` derives the offset from the allocation address, which a symbolic
+    /// executor has to treat as unknown).
+    pub fn verif_from_vec(width: usize, height: usize, buf: Vec<S>) -> Self {
+        assert_eq!(buf.len(), width * height);
+        Self {
+            width,
+            height,
+            offset: 0,
+            buf,
+            handle: None,
+        }
+    }
+}
